@@ -133,15 +133,17 @@ def cmdEvents (lim : Limits) (scfg : StackCfg) (line : String) : List Ev × Bool
     ([.lpcError (trimNl s!"Bad argument 1 to allocate(), Expected: int Got: \"{s}\"."), .result "r badarg !err"], true)
   | "prog" :: _ => ([], true)
   | ["run", name, fn] => ([.result s!"fz {name} {fn} done"], true)
-  | ["stackprog", d, n] =>
-    match d.toNat?, n.toNat? with
-    | some d, some n =>
+  | "stackprog" :: d :: n :: rest =>
+    match d.toNat?, n.toNat?, (rest.head?.getD "0").toNat? with
+    | some d, some n, some nl =>
       let pre := Ev.info s!"stack base 0 size {scfg.size}"
-      match srun scfg { sp := -1, depth := 0 } (stackprogOps d n) with
+      match srun scfg { sp := -1, depth := 0 } (stackprogOps d n nl) with
       | .ok _ => ([pre, .result s!"r stackprog i {d}"], true)
       | .error (.crash _) => ([pre, .sanitizer "heap-buffer-overflow"], false)
+      | .error .stackOverflow => ([pre, .lpcError "***Stack overflow!", .result "r stackprog !err"], true)
+      -- "Too deep recursion": the master's error handler cannot run either (no control frame left), nothing is logged
       | .error _ => ([pre, .result "r stackprog !err"], true)
-    | _, _ => ([.malformed line], true)
+    | _, _, _ => ([.malformed line], true)
   | [] => ([], true)
   | _ => if line.startsWith "#" then ([], true) else ([.malformed line], true)
 
